@@ -231,7 +231,91 @@ def t9_accessors(T):
     return ("(* GENERATED by tools/translate.py (T9) from the provided methods of trait ClientHello -- do not edit *)\n"
             "Inductive rand_time_form := RtWholeSlice | RtFirstFour.\nDefinition rand_time_src : rand_time_form := %s.\n" % forms[rt])
 
+def scan_public_types(T):
+    """[(name, n_lifetimes)] for every `pub struct` / `pub enum` of src/*.rs (tls_serialize.rs excluded: functions only)"""
+    import glob, os
+    U = T.Untranslatable
+    out = []
+    for f in sorted(glob.glob(os.path.join(T.REPO, "src", "*.rs"))):
+        src = T.strip_comments(open(f).read())
+        for m in re.finditer(r"^\s*pub (?:struct|enum) (\w+)\s*(<[^>{(;]*>)?", src, re.M):
+            name, gen = m.group(1), m.group(2) or ""
+            params = [x.strip() for x in gen.strip("<>").split(",") if x.strip()]
+            if any(not x.startswith("'") for x in params):
+                raise U("public type %s has a type parameter (%s): Send/Sync assertion not generated" % (name, gen))
+            out.append((name, len(params)))
+    return sorted(set(out))
+
+def t10_asserts(T):
+    """compile-time Send + Sync assertions for every public value type (included by the harness)"""
+    lines = ["// GENERATED by tools/translate.py (T10) from the `pub struct` / `pub enum` items of src/*.rs -- do not edit",
+             "fn _assert_send_sync<T: Send + Sync>() {}", "#[allow(dead_code)]", "pub fn assert_all() {"]
+    for name, nl in scan_public_types(T):
+        gen = ("<" + ", ".join(["'static"] * nl) + ">") if nl else ""
+        lines.append("    _assert_send_sync::<tls_parser::%s%s>();" % (name, gen))
+    lines += ["    _assert_send_sync::<&'static tls_parser::TlsCipherSuite>();", "}"]
+    return "\n".join(lines) + "\n"
+
+def t10_config(T):
+    """conditional-compilation sites, crate attributes, unsafe tokens, feature table"""
+    import glob, os
+    U = T.Untranslatable
+    def q(x): return x.replace('"', "")
+    sites, unsafe_n = [], 0
+    for f in sorted(glob.glob(os.path.join(T.REPO, "src", "*.rs"))):
+        src = T.strip_comments(open(f).read())
+        base = os.path.basename(f)
+        unsafe_n += len(re.findall(r"\bunsafe\b", re.sub(r"forbid\(unsafe_code\)", "", src)))
+        lines = src.split("\n")
+        for k, l in enumerate(lines):
+            for m in re.finditer(r"#!?\[\s*cfg(_attr)?\s*\(|\bcfg!\s*\(", l):
+                start = l.index("(", m.start())
+                # condition text up to the matching parenthesis (attribute on one line in this crate)
+                depth, j = 0, start
+                while j < len(l):
+                    if l[j] == "(": depth += 1
+                    elif l[j] == ")":
+                        depth -= 1
+                        if depth == 0: break
+                    j += 1
+                if depth != 0: raise U("%s:%d: multi-line cfg attribute" % (base, k + 1))
+                cond = T.nows(l[start + 1:j])
+                kind = "cfg!" if "cfg!" in m.group(0) else ("cfg_attr" if m.group(1) else "cfg")
+                # the guarded item: next line that is not an attribute
+                item, n = "", k + 1
+                if kind == "cfg!": item = T.nows(l)[:60]
+                else:
+                    while n < len(lines) and (not lines[n].strip() or lines[n].strip().startswith("#[")): n += 1
+                    item = T.nows(lines[n] if n < len(lines) else "")[:60]
+                sites.append((base, kind, q(cond), q(item)))
+    lib = T.strip_comments(T.read("src/lib.rs"))
+    attrs = [q(T.nows(a)) for a in re.findall(r"#!\[(.*?)\]", lib, re.S)]
+    toml = T.read("Cargo.toml")
+    m = re.search(r"^\[features\]\s*\n(.*?)(?=^\[)", toml, re.M | re.S)
+    if not m: raise U("Cargo.toml: [features] not found")
+    feats = []
+    for l in m.group(1).split("\n"):
+        l = l.strip()
+        if not l or l.startswith("#"): continue
+        mm = re.match(r"([\w-]+)\s*=\s*\[(.*)\]$", l)
+        if not mm: raise U("Cargo.toml feature line not recognised: %r" % l)
+        feats.append((mm.group(1), [x.strip().strip('"') for x in mm.group(2).split(",") if x.strip()]))
+    def cs(x): return '"%s"' % x
+    def cl(xs): return "[" + "; ".join(xs) + "]"
+    types = scan_public_types(T)
+    out = ["(* GENERATED by tools/translate.py (T10) from src/*.rs and Cargo.toml -- do not edit *)",
+           "From Coq Require Import String List NArith.", "Import ListNotations.", "Open Scope string_scope.",
+           "(* (file, kind, condition, first 60 characters of the guarded item); double quotes removed, whitespace removed *)",
+           "Definition cfg_sites : list (string * string * string * string) := " +
+           cl(["(%s, %s, %s, %s)" % (cs(a), cs(b), cs(c), cs(d)) for a, b, c, d in sites]) + ".",
+           "Definition crate_attrs : list string := " + cl([cs(a) for a in attrs]) + ".",
+           "Definition unsafe_tokens : N := %d%%N." % unsafe_n,
+           "Definition features : list (string * list string) := " + cl(["(%s, %s)" % (cs(a), cl([cs(x) for x in b])) for a, b in feats]) + ".",
+           "Definition public_types : list string := " + cl([cs(n) for n, _ in types]) + "."]
+    return "\n".join(out) + "\n"
+
 def run(T, step, enums):
+    step("T10", ["Config.v", "assert_traits.rs"], lambda: {"Config.v": t10_config(T), "assert_traits.rs": t10_asserts(T)})
     step("T9", ["AccessorForms.v"], lambda: {"AccessorForms.v": t9_accessors(T)})
     step("T3a", ["CipherTxt.v"], lambda: {"CipherTxt.v": t3a_cipher_txt(T)})
     if enums is not None:
